@@ -336,3 +336,90 @@ func VfC13_recvViolation() {
 	vfAssert(len(re) >= 1, "C13:violating-response-recorded-as-receive-error")
 	vfReach("end")
 }
+
+func init() { vfRegister("VfC13_longReader", VfC13_longReader) }
+
+// VfC13_longReader: "at all times".  A reader of the results is in progress (it holds the results read lock, as a
+// long Results() / AckResult() / Status() call does) while answers arrive.  Everything the receiver can do before it
+// has to wait for that reader is done (the goroutines run until none can move); at that moment every request that
+// was handed over is pending or in the results - never in neither.  Two positions of the reader: before the
+// session's own requests (parameters, election id) are sent, or after, around 1..3 operations.
+func VfC13_longReader() {
+	st := vfNewCStream()
+	stub := &vfCStub{streams: []*vfCStream{st}}
+	c, err := New(ElectedPrimaryClient(&spb.Uint128{Low: 1}), PersistEntries())
+	if err != nil {
+		panic(err)
+	}
+	c.UseStub(stub)
+	ctx := context.Background()
+	if err := c.Connect(ctx); err != nil {
+		panic(err)
+	}
+	early := vfBool("reader-before-session-requests")
+	n := vfInt("ops", 1, 3)
+	if early {
+		c.qs.resultMu.RLock()
+	}
+	c.StartSending()
+	vfSettleC()
+	if !early {
+		c.qs.resultMu.RLock()
+	}
+	for i := 0; i < n; i++ {
+		c.Q(vfCOpN(uint64(i + 1)))
+	}
+	vfSettleC()
+	// the reader looks at both queues (it already holds the results lock)
+	c.qs.pendMu.RLock()
+	inP := map[uint64]bool{}
+	for id := range c.qs.pendq.Ops {
+		inP[id] = true
+	}
+	pendElec, pendParams := c.qs.pendq.Election != nil, c.qs.pendq.SessionParams != nil
+	c.qs.pendMu.RUnlock()
+	inR := map[uint64]bool{}
+	resElec, resParams := false, false
+	for _, r := range c.qs.resultq {
+		if r.OperationID != 0 {
+			inR[r.OperationID] = true
+		}
+		if r.CurrentServerElectionID != nil {
+			resElec = true
+		}
+		if r.SessionParameters != nil {
+			resParams = true
+		}
+	}
+	c.qs.resultMu.RUnlock()
+	sent := map[uint64]bool{}
+	st.mu.Lock()
+	for _, m := range st.sent {
+		for _, o := range m.Operation {
+			sent[o.Id] = true
+		}
+	}
+	st.mu.Unlock()
+	for i := 0; i < n; i++ {
+		id := uint64(i + 1)
+		if sent[id] {
+			vfAssert(inP[id] || inR[id], "C13:operation-is-pending-or-resulted-at-all-times")
+			vfAssert(!(inP[id] && inR[id]), "C13:operation-never-both-pending-and-resulted")
+		}
+	}
+	vfAssert(pendElec || resElec, "C13:election-update-is-pending-or-resulted-at-all-times")
+	vfAssert(pendParams || resParams, "C13:session-parameters-are-pending-or-resulted-at-all-times")
+	// once the reader has gone everything completes
+	vfSettleC()
+	aerr := c.AwaitConverged(ctx)
+	vfAssert(aerr == nil, "C13:converges-after-the-reader-has-gone")
+	rs, _ := c.Results()
+	got := map[uint64]int{}
+	for _, r := range rs {
+		got[r.OperationID]++
+	}
+	for i := 0; i < n; i++ {
+		vfAssert(got[uint64(i+1)] == 1, "C13:every-operation-resulted-exactly-once")
+	}
+	vfReach("end")
+}
